@@ -43,7 +43,7 @@ def run(tier, seed):
     stats.labels["table-entries-checked"] += 12640
     if rc:
         fails.append({"dfa": True, "what": "scanner tables differ from the KMP automaton: " + out[-800:]})
-    n = 400000 if tier == "quick" else 20000000
+    n = 400000 if tier == "quick" else 12000000
     res = _inproc.run_target("scan", seed, n, max_size=100)
     _inproc.merge_into(stats, res, "")
     fails += res["fails"]
